@@ -33,7 +33,8 @@ CAT = [
     ("1e300", 1e300), ("int(1e300)", int(1e300)), ("float('nan')", NAN), ("float('inf')", INF), ("float('-inf')", -INF),
     ("-float('inf')", -INF), ("float('inf') - float('inf')", NAN), ("0.1 + 0.2", 0.1 + 0.2), ("0.3", 0.3),
     ('""', ""), ('"a"', "a"), ('"ab"', "ab"), ('"a" + "b"', "ab"), ('"xab"[1:]', "ab"), ('"%s" % "ab"', "ab"),
-    ('"{}b".format("a")', "ab"), ('"".join(["a", "b"])', "ab"), ('intern("ab")', "ab"), ('host_str("ab")', "ab"),
+    ('"{}b".format("a")', "ab"), ('"".join(["a", "b"])', "ab"), ('intern("ab")', "ab"), ('host_str("ab")', "ab"), ('host_str("\\u00e9")', "é"), ('host_str("a")', "a"), ('host_str("")', ""),
+    ('host_str("\\U0001F600")', "\U0001F600"), ('host_str("x\\u0416")[1]', "Ж"),
     ('"AB".lower()', "ab"), ('str(12)', "12"), ('"12"', "12"), ('"1" + "2"', "12"), ('"b"', "b"), ('"B"', "B"), ('"a\\u00e9"', "aé"),
     ('"a" + "\\u00e9"', "aé"), ('"\\u00e9"', "é"), ('"a\\u00e9"[1]', "é"), ('"\\u00c9".lower()', "é"), ('"%s" % "\\u00e9"', "é"),
     ('"".join(["\\u00e9"])', "é"), ('"a"[0]', "a"), ('"A".lower()', "a"), ('"\\U0001F600"[0]', "\U0001F600"), ('"x\\u0416"[1:]', "Ж"), ('"\\u0416"', "Ж"), ('"\\U0001F600"', "\U0001F600"), ('"ab" * 1', "ab"), ('"ab"[:]', "ab"), ('"abc"[:-1]', "ab"), ('"1"', "1"),
@@ -200,6 +201,14 @@ def run(tier):
         mixed_def.append(f"    emit([(a == ({CAT[j][0]}), ({CAT[j][0]}) == a, a != ({CAT[j][0]})) for a in C])")
     mixed_def.append("mx()")
     specs.append({"id": len(specs), "steps": ["\n".join(mixed_def) + "\n"], "opts": {"dialect": "all"}})
+    for defn in (False, True):
+        ind = "    " if defn else ""
+        ml = ['load("lib.star", "FV")'] + (["def mx():"] if defn else [])
+        for j in range(n):
+            ml.append(f"{ind}emit([(a == ({CAT[j][0]}), ({CAT[j][0]}) == a, a != ({CAT[j][0]})) for a in FV])")
+        if defn:
+            ml.append("mx()")
+        specs.append({"id": len(specs), "libs": [["lib.star", lib]], "steps": ["\n".join(ml) + "\n"], "opts": {"dialect": "all"}})
     # large sorts (thresholds of the sort implementation): stability with many ties
     big = ("def st(n, m):\n    l = [((i * 37) % m, i) for i in range(n)]\n    s1 = sorted(l, key = lambda p: p[0])\n"
            "    ok = all([s1[i][0] < s1[i + 1][0] or (s1[i][0] == s1[i + 1][0] and s1[i][1] < s1[i + 1][1]) for i in range(n - 1)])\n"
@@ -299,7 +308,7 @@ def run(tier):
         # grouping through one big dict: classes must be exactly the model's equivalence classes (nan excluded)
         # (reported through the pairwise checks above; here only count)
     # mixed matrices (module level and inside a def)
-    for mi, mname in ((4, "mixed"), (5, "mixed-def")):
+    for mi, mname in ((4, "mixed"), (5, "mixed-def"), (6, "mixed-lib"), (7, "mixed-lib-def")):
         o = outs[mi]
         if "crash" in o or "panic" in o or o["steps"][0]["err"]:
             res.violation("C09:crash", {"mode": mname, "out": str(o)[:1500]})
@@ -316,7 +325,7 @@ def run(tier):
                     continue
                 if (a == "T") != me or (b == "T") != me or (c == "T") == me:
                     viol("eq-runtime-vs-literal", i, j, f"(a == lit, lit == a, a != lit) = ({a},{b},{c}), abstract values equal: {me}", mname)
-    o = outs[6]
+    o = outs[8]
     if "crash" in o or "panic" in o or o["steps"][0]["err"]:
         res.violation("C09:sort-crash", {"out": str(o)[:1500]})
     elif "F" in o["steps"][0]["out"][0]:
@@ -337,7 +346,7 @@ def run(tier):
                     else:
                         viol("eq-literal", i, j, f"folded == gives {x}, abstract values equal: {me}", "literal")
     # sorting
-    o = outs[7]
+    o = outs[9]
     if "crash" in o or "panic" in o or o["steps"][0]["err"]:
         res.violation("C09:sort-crash", {"out": str(o)[:1500]})
     else:
